@@ -13,14 +13,19 @@ R = Rules(
         "request codes and returns on a hit before anything else happens; on a hit the only output is the stored "
         "reply object itself (identity, hence byte-identical) and only for CON with a stored reply; a miss records "
         "None, returns False and arms the expiry with EXCHANGE_LIFETIME of the message's tuning popping the same "
-        "key; the reply is recorded (only for known keys) before it is transmitted; nobody else writes the table. "
+        "key -- a value fixed when the timer is armed, not read from the mutable message when it fires; the reply is "
+        "recorded (only for known keys) before it is transmitted; nothing that may be an ACK reaches the transmission "
+        "primitive on a way that does not start in _send_initially; nobody else writes the table. "
         "Timing around the 247 s boundary and run-time equality of endpoint objects are not decided."
     ),
     rule_text=(
         "symbolic execution of the two de-duplication functions per state of the table entry (unknown / known without "
         "reply / known with reply) and message type, every spelling of a dictionary access and of the expiry callable "
         "interpreted by its meaning (rules/_kit_c04.py); path model of dispatch_message and _send_initially; key "
-        "tracing through locals; alias- and lambda-aware who-may-write over the whole package"
+        "tracing through locals; alias- and lambda-aware who-may-write over the whole package; backward message flow "
+        "from every reference to message_interface.send through conduit functions, nested defs, scheduled method values "
+        "and partials to the originating call sites (WireFlow), with the message type decided from constructions and "
+        "dominating conditions"
     ),
 )
 
@@ -48,6 +53,9 @@ def _assigned(fnode, name):
         elif isinstance(n, ast.NamedExpr) and n.target.id == name:
             vals.append(n.value)
     if len(vals) == 1 and len(writes_to_name(fnode, name)) == 1:
+        a = getattr(fnode, "args", None)
+        if a is not None and any(x.arg == name for x in a.posonlyargs + a.args + a.kwonlyargs + [y for y in (a.vararg, a.kwarg) if y]):
+            return None  # a parameter that is re-bound once has two possible values
         return vals[0]
     return None
 
@@ -122,7 +130,8 @@ def _key_ok(fi, e, m, use=None):
 
 
 def _uses(fi):
-    """[(node, key expr, kind)] of every keyed access to the table in fi, [other references]"""
+    """[(node, key expr, kind)] of every keyed access to the table in fi, [other references], [calls that hand the
+    table to a deferred callable]"""
     from ._kit_c04 import table_uses
 
     return table_uses(fi.node, FIELD, lambda x: _resolve(fi.node, x))
@@ -166,7 +175,12 @@ def a(ctx):
     for fi in (ctx.prog.func(MM + "_deduplicate_message"), rec):
         name = fi.name
         m = params(fi)[0]
-        keyed, other = _uses(fi)
+        keyed, other, handed = _uses(fi)
+        for h in handed:
+            # call_later(t, f, table, ...) / partial(f, table, ...): f receives the table and does with it whatever it
+            # does when the timer fires; C04.c interprets f's body (any callable, method of the class included) and
+            # refuses when it cannot (in the recording step any timer is a violation of C04.d).
+            ctx.note("%s: the table is handed to a deferred callable in `%s` (interpreted in C04.c)" % (name, stmt_text(h, 50)))
         ctx.need(not other, "%s refers to _recent_messages other than by key: %s" % (name, [stmt_text(o, 50) for o in other]))
         ctx.floor("keyed accesses to _recent_messages in %s" % name, len(keyed), 2)
         for node, key, kind in keyed:
@@ -364,6 +378,18 @@ def _delay_ok(kind, delay, m):
     return False
 
 
+def _identifier_fields_assignable(prog):
+    """Is there any assignment to the attribute `mid` or `remote` of an object other than `self` in the package
+    (m.mid = ..., setattr-free spelling; Message declares them as plain attributes / properties with setters)?"""
+    n = 0
+    for mod in prog.modules.values():
+        for x in ast.walk(mod.tree):
+            if isinstance(x, ast.Attribute) and isinstance(x.ctx, ast.Store) and x.attr in ("mid", "remote"):
+                if not (isinstance(x.value, ast.Name) and x.value.id == "self"):
+                    n += 1
+    return n > 0
+
+
 def _sim(ctx, fi, m):
     from ._kit_c04 import EntrySim
 
@@ -424,8 +450,21 @@ def c(ctx):
                 A.ob("identifier lifetime is EXCHANGE_LIFETIME of the message's transport tuning", _delay_ok(kind, delay, m), call,
                      detail="%s: delay = %s" % (w, ast.unparse(delay)))
                 ctx.need(removal is not None, "the expiry callback `%s` cannot be interpreted (%s)" % (stmt_text(call.args[1], 60), "; ".join(sim.uninterpreted) or "unknown callable"))
+                # The identifier must be the one that was recorded, i.e. a value fixed when the timer is armed.  A
+                # callable that receives the message object and reads remote / mid from it when it runs forgets
+                # whatever the object says *then*: the request object is handed on to the application and to the
+                # block-wise machinery, and its mid / remote are assignable -- the recorded identifier would never
+                # be forgotten (and another one too early).  Only if nothing in the package ever assigns these
+                # fields is reading them late the same as reading them when arming.
+                late = [e for e in removal if e[0] == "latekey"]
+                if late and not _identifier_fields_assignable(ctx.prog):
+                    ctx.note("the expiry callback reads the identifier from the message when it runs; nothing assigns .mid/.remote in the package")
+                    removal = [("remove", e[1], False) if e[0] == "latekey" else e for e in removal]
+                    late = []
+                A.ob("the expiry forgets the identifier that was recorded: the key is a value fixed when the timer is armed, not read from the (mutable) message when it fires",
+                     not late, call, detail="%s: `%s` evaluates remote/mid of the message object inside the callback" % (w, stmt_text(late[0][1], 60)) if late else None)
                 # exactly one removal, of the key, nothing else; a default (pop(key, None)) does not matter
-                ok = len(removal) == 1 and removal[0][0] == "remove"
+                ok = len(removal) == 1 and removal[0][0] in ("remove", "latekey")
                 A.ob("the expiry forgets exactly the recorded identifier", ok, call, detail="%s: callback does %s" % (w, [e[0] for e in removal]))
             A.ob("the expiry is armed only for new identifiers", miss, call, detail=w)
         if miss:
@@ -659,6 +698,84 @@ def g_shared(ctx):
     c09.a(ctx)
 
 
+@R.clause("C04.h", "whatever may be the acknowledgement of a request reaches the wire only through the recording sender _send_initially")
+def h(ctx):
+    # A duplicate can only be re-answered with "the acknowledgement already sent" if every acknowledgement that is
+    # sent has been offered to the recording step.  That step lives in _send_initially (C04.d), so the necessary
+    # condition is: no message that may be an ACK gets to the transmission primitive (<x>.message_interface.send)
+    # on a way that does not start in _send_initially.  Decided by walking back from every reference to the
+    # primitive in the whole package: a function that hands on one of its own parameters is a conduit and the
+    # question moves to all of its callers (rules/_kit_c04.py: WireFlow; also through nested defs with default
+    # bindings, lambdas, method values given to call_later / call_soon / partial, local aliases).  A walk may end
+    #   - in _send_initially with the message it was called for (a retransmission of the same object lands here
+    #     through the timer chain _add_exchange -> ... -> _retransmit): fine, and the recording step lies on every
+    #     path through that site (before it when the chain to the wire is synchronous);
+    #   - at a message that provably is not an ACK (built as RST / CON / NON in the function, or the site is
+    #     guarded by a condition on its mtype that excludes ACK): such a message is never what a duplicate request
+    #     is to be re-answered with;
+    #   - anywhere else: violation at that site.
+    # The re-send inside the filter is C04.c's (it sends the recorded object itself).
+    from ..paths import PathModel
+    from ._kit_c04 import WireFlow
+
+    si = ctx.prog.func(MM + "_send_initially")
+    m = params(si)[0]
+    filt = ctx.prog.func(MM + "_deduplicate_message")
+    wf = WireFlow(ctx.prog, si, _resolve, _enclosing_binding, judged_elsewhere=(filt.qn,))
+    wires = wf.run()
+    ctx.floor("references to the transmission primitive message_interface.send in the package", len(wires), 1)
+    for t in wf.notes:
+        ctx.note(t)
+    bad_by_wire = [x for x in wf.findings if not x[2]]
+    seen = set()
+    for f, node, ok, detail in wf.findings:
+        if id(node) in seen:
+            continue
+        seen.add(id(node))
+        ctx.ob("a message that may acknowledge a request is put on the wire through _send_initially only (where it is recorded for duplicates)",
+               ok, f, node, detail=detail)
+    for f, ref in wires:
+        if id(ref) in seen or bad_by_wire:
+            continue  # the offending sites are reported where they are
+        ctx.ob("every way to the transmission primitive starts in _send_initially or carries a message that is no acknowledgement", True, f, ref)
+    ctx.floor("ways from _send_initially to the wire", len(wf.arrivals), 1)
+    rebound = bool(writes_to_name(si.node, m))
+    sf, folded = _recorder(ctx.prog)
+    cfg = cfg_of(si)
+    pm = None
+    if not folded:
+        pm = PathModel(si, subjects={"%s.mtype" % m: ["CON", "NON", "ACK", "RST"]})
+        st_nodes = set()
+        for s_, sb in find("self.%s($x)" % sf.name, si.node):
+            x = _resolve(si.node, sb["x"])
+            if isinstance(x, ast.Name) and x.id == m:
+                st_nodes.update(cfg.locate(s_))
+    else:
+        ctx.note("the recording step is part of _send_initially: order of recording and transmission is decided on the symbolic runs of C04.d")
+    done = set()
+    for pin, deferred, arg in wf.arrivals:
+        if id(pin) in done:
+            continue
+        done.add(id(pin))
+        is_m = isinstance(arg, ast.Name) and arg.id == m and not rebound
+        ctx.ob("what _send_initially puts on the wire (now or by a later retransmission) is the message it was called with", is_m, si, pin,
+               detail="sends `%s`" % stmt_text(arg, 40))
+        if pm is None:
+            continue
+        nids = cfg.locate(pin)
+        ctx.need(nids, "the site `%s` of _send_initially is not part of its control flow graph" % stmt_text(pin, 50))
+        on = [(p, n) for n in nids for p in pm.paths_through(n)]
+        ctx.need(on, "the site `%s` lies on no normal path of _send_initially" % stmt_text(pin, 50))
+        bad = None
+        for p, n in on:
+            scope = p.nodes if deferred else p.nodes[: p.index(n)]
+            if not any(x in st_nodes for x in scope) and bad is None:
+                bad = "on the path [%s] the message is %s without having been offered to the recording step" % (
+                    pm.describe(p), "scheduled for transmission" if deferred else "transmitted")
+        ctx.ob("the recording step lies on every path of _send_initially that leads to the wire (before a synchronous transmission)",
+               bad is None, si, pin, detail=bad)
+
+
 F_MM = "aiocoap/messagemanager.py"
 R.seed("C04.a", F_MM, "        key = (message.remote, message.mid)\n        if key in self._recent_messages:\n            if message.mtype is CON:", "        key = message.mid\n        if key in self._recent_messages:\n            if message.mtype is CON:", "keyed by mid only")
 R.seed("C04.a", F_MM, "        key = (message.remote, message.mid)\n        if key in self._recent_messages:\n            self._recent_messages[key] = message", "        key = (message.mid, message.remote)\n        if key in self._recent_messages:\n            self._recent_messages[key] = message", "components swapped on one side")
@@ -684,3 +801,14 @@ R.seed("C04.d", F_MM, "        if key in self._recent_messages:\n            sel
 R.seed("C04.e", F_MM, "        self.log.debug(\"Exchange removed, message ID: %d.\", message.mid)\n", "        self.log.debug(\"Exchange removed, message ID: %d.\", message.mid)\n        self.loop.call_soon(lambda: self._recent_messages.pop(key, None))\n", "foreign writer hidden in a lambda")
 
 R.seed("C04.f", "aiocoap/numbers/constants.py", "        return self.ACK_TIMEOUT\n", "        return self.EMPTY_ACK_DELAY\n", "PROCESSING_DELAY 0.1 s: EXCHANGE_LIFETIME shrinks to 245.1 s")
+
+# third pass: the expiry key must be a value fixed when the timer is armed (C04.c), acknowledgements reach the wire
+# only through the recording sender (C04.h)
+R.seed("C04.c", F_MM, "                functools.partial(self._recent_messages.pop, key),", "                lambda: self._recent_messages.pop((message.remote, message.mid), None),", "expiry key read from the mutable message when the timer fires (closure)")
+R.seed("C04.c", F_MM, "                functools.partial(self._recent_messages.pop, key),", "                lambda m=message: self._recent_messages.pop((m.remote, m.mid), None),", "expiry callable bound to the message object, not to its identifier")
+R.seed("C04.c", F_MM, "                functools.partial(self._recent_messages.pop, key),", "                functools.partial(lambda t, m: t.pop((m.remote, m.mid)), self._recent_messages, message),", "table and message handed to the callable, key derived when it runs")
+R.seed("C04.h", F_MM, "        self._send_initially(ack)\n", "        self._send_via_transport(ack)\n", "empty ACK straight to the transport: never recorded for duplicates")
+R.seed("C04.h", F_MM, "        self._send_initially(ack)\n", "        self.message_interface.send(ack)\n", "empty ACK handed to the message interface directly")
+R.seed("C04.h", F_MM, "        self._send_initially(ack)\n", "        self.loop.call_soon(self._send_via_transport, ack)\n", "empty ACK sent by a scheduled call of the transmission primitive")
+R.seed("C04.h", F_MM, "        else:\n            self._send_initially(message, messageerror_monitor)\n\n    def _send_initially", "        elif message.mtype is CON:\n            self._send_initially(message, messageerror_monitor)\n        else:\n            self._send_via_transport(message)\n\n    def _send_initially", "only CONs go through the recording sender: piggybacked responses are not recorded")
+R.seed("C04.h", F_MM, "        self._store_response_for_duplicates(message)\n\n        self._send_via_transport(message)", "        if message.mtype is CON:\n            self._store_response_for_duplicates(message)\n\n        self._send_via_transport(message)", "acknowledgements pass the sender without being offered to the recording step")
